@@ -3,8 +3,17 @@
 # hypothesis, jsonschema + the repository's own dependencies via a .pth to /venv's site-packages).
 set -e
 cd "$(dirname "$0")"
-if [ -x .venv/bin/python ] && .venv/bin/python -c "import z3, numpy, jsonschema, ecdsa" 2>/dev/null; then
+ready() { [ -x .venv/bin/python ] && .venv/bin/python -c "import z3, numpy, jsonschema, ecdsa" 2>/dev/null; }
+if ready; then
     exit 0
+fi
+# several checks may start at once on a fresh restore: build under a lock, re-test after acquiring it
+if command -v flock >/dev/null 2>&1; then
+    exec 9>.setup.lock
+    flock 9
+    if ready; then
+        exit 0
+    fi
 fi
 rm -rf .venv
 /venv/bin/python -m venv .venv
